@@ -35,6 +35,12 @@ def check(ck):
     r03_5(ck, sa)
     from . import c01
     c01.r01_14(ck, sa.rf, rule='R03.6')
+    ck.shared('R03.7', 'no front entry outlives its process: entries of '
+              'deleted processes are dropped in every iteration, so a '
+              'process created later at the same path starts at the clock '
+              'and not at a time that lies in the past (which would turn '
+              'the next step negative)',
+              lambda c: c01.r01_5(c, sa.rf))
 
 
 def quiet_lists(sa):
@@ -276,11 +282,15 @@ def r03_3(ck, sa):
                'run_for(0, force_complete=True) do nothing)', w)
     # end_time definition
     defs = local_defs(f.node).get(END, [])
-    ok = len(defs) == 1 and isinstance(defs[0].value, ast.BinOp) and \
-        isinstance(defs[0].value.op, ast.Add) and {
-            A.unparse(defs[0].value.left), A.unparse(defs[0].value.right)} \
-        == {'self.global_time', A.params_of(f.node)[1]} and not within(
-            defs[0].stmt, w)
+    adds = [d for d in defs if isinstance(d.value, ast.BinOp)]
+    # "the global time equals start plus interval exactly": the end is the
+    # sum and nothing else (rounding it moves the end of an interval that
+    # is not on the grid)
+    rest = [d for d in defs if d not in adds]
+    ok = len(adds) == 1 and isinstance(adds[0].value.op, ast.Add) and {
+            A.unparse(adds[0].value.left), A.unparse(adds[0].value.right)} \
+        == {'self.global_time', A.params_of(f.node)[1]} and not any(
+            within(d.stmt, w) for d in defs) and not rest
     ck.require(ok, 'R03.3', f, defs[0].stmt if defs else 'end_time',
                'end_time = global_time + interval, fixed before the loop',
                'end_time is not start + interval computed once before the '
@@ -351,6 +361,10 @@ def r03_4(ck, sa):
             for side in [n.left] + n.comparators:
                 if isinstance(side, ast.Name) and side.id in rf.emit_names:
                     names.add(side.id)
+    # the end of the interval is itself computed by addition and becomes
+    # the clock when the interval is over
+    if rf.end_name in defs:
+        names.add(rf.end_name)
     # the clock itself: locals assigned to self.global_time
     for a in rf.advance_stmts():
         if isinstance(a, ast.Assign) and isinstance(a.value, ast.Name) and \
@@ -452,6 +466,22 @@ def r03_4(ck, sa):
                            for dd in reaching(f.node).at(n, name)):
                         uses.add(un)
             ok = bool(rounds) and cfg.must_pass(dn, uses, rounds | skip)
+            if name == rf.end_name:
+                # named by its role; see DESIGN.md (known finding): the
+                # property also wants the end to be start + interval
+                # exactly, so rounding it is not the repair
+                ck.require(ok, 'R03.4', f,
+                           'end of the interval (global_time + interval) '
+                           'used as computed',
+                           'the end of the interval is on the time grid '
+                           'when start and interval are',
+                           'the end of the interval is the float sum '
+                           'global_time + interval, which can miss the '
+                           'grid for operands on it (0.1 + 0.2): forced '
+                           'completion then hands the process the '
+                           'remainder 5.6e-17, whose end rounds back to a '
+                           'time that already has a row', d.stmt)
+                continue
             ck.require(ok, 'R03.4', f, d.stmt,
                        'value manufactured by addition is rounded (when a '
                        'precision is set) before its first use',
